@@ -733,6 +733,10 @@ func runEntry(e corpusEntry, sec *vh.Section, verbose bool) {
 		var c nestCase
 		json.Unmarshal(e.Input, &c)
 		runNesting(sec, c, verbose)
+	case "nesting-hole":
+		var c holeCase
+		json.Unmarshal(e.Input, &c)
+		runNestingHole(sec, c, verbose)
 	case "e2e":
 		var b e2eBatch
 		json.Unmarshal(e.Input, &b)
